@@ -22,7 +22,9 @@ CHECKS = {
              "make_contractions and the data flow of from_pyscf (Model/Parsers.v): printing any well-formed basis-set "
              "AST under any admissible layout (zero, one or many lines before the first element, comment/blank/filler "
              "lines, blanks, letter case, E/D/plain literals, SP blocks) and parsing it back returns exactly the "
-             "shells written; make_contractions places shells per atom in order with the requested types and "
+             "shells written, by induction, unbounded in elements / shells / primitives / columns (the Gaussian94 merge "
+             "rule included; np.allclose enters as an abstract reflexive relation); make_contractions places shells "
+             "per atom in order with the requested types (string, list, tuple), accepts every valid argument and "
              "returns its arguments untouched. The model is evaluated inside Coq (vm_compute, batched coqc calls) "
              "and compared on every run with the implementation of /repo on generated files (written to disk and "
              "parsed by both), molecules (every call made twice on the same, bitwise snapshotted argument objects) "
